@@ -604,6 +604,10 @@ func render(src []byte, tf *token.File, info *types.Info, node ast.Node, subst m
 				}
 				if zi, ok := z.(*ast.Ident); ok {
 					if rep, ok := subst[info.ObjectOf(zi)]; ok {
+						// `(&x.f).g` is `x.f.g`: the operand of a selector is dereferenced (or addressed) by itself
+						if selOperand(y, zi) && strings.HasPrefix(rep, "(&") && strings.HasSuffix(rep, ")") {
+							rep = rep[2 : len(rep)-1]
+						}
 						es = append(es, textEdit{tf.Offset(zi.Pos()), tf.Offset(zi.End()), rep})
 					}
 				}
@@ -2024,6 +2028,18 @@ func enclosingStmt(root ast.Node, target ast.Node) ast.Stmt {
 		}
 		stack = append(stack, x)
 		return found == nil
+	})
+	return found
+}
+
+// selOperand: id is the direct operand of a selector inside (or equal to) sel.
+func selOperand(sel *ast.SelectorExpr, id *ast.Ident) bool {
+	found := false
+	ast.Inspect(sel, func(x ast.Node) bool {
+		if s, ok := x.(*ast.SelectorExpr); ok && s.X == ast.Expr(id) {
+			found = true
+		}
+		return !found
 	})
 	return found
 }
